@@ -89,9 +89,9 @@ func init() {
 		Level: "fault_enumeration",
 		Cases: func(tier string) int {
 			if tier == "thorough" {
-				return 8000
+				return 16000
 			}
-			return 1500
+			return 4000
 		},
 		ChunkSize:   50,
 		Rule:        "PRNG-drawn episodes of exactly-once publishes (1-16 messages, 1-2 goroutines) under the fault script of C01, weighted towards lost acknowledgements, read failures and transient store errors so that each of PUBREC, PUBREL, PUBCOMP gets lost in either direction; the reference broker forwards a QoS 2 message once per identifier cycle and its delivery log is the end-to-end oracle. 1 in 6 episodes runs on VolatileSession (wire-level oracle), 1 in 5 ends with 1-2 stops and AdoptSession followed by new publishes, 1 in 60 really completes 16,38x publishes and then restarts (C02's adoption oracle, two generations) on every stop point whose pending range lies across the identifier wrap, with 0-7 transfers at the PUBREL stage. Non-trivial: at least one message saw a new connection between its PUBREL record and its completion; distinct by fault multiset, connections and messages.",
